@@ -1435,6 +1435,161 @@ def generate_route():
     return '\n'.join(lines) + '\n'
 
 
+# ---------------------------------------------------------------- translator to coq/StepAst.v
+class StepTranslator:
+    """_take_reduction_step / _consolidate_expression_lacking_variables / _fully_reduce -> StepAst.tfun"""
+
+    def __init__(self, where):
+        self.where = where
+
+    def fail(self, what, node=None):
+        raise TieError('cannot translate %s in %s: %s' % (what, self.where, ast.dump(node)[:160] if node is not None else ''))
+
+    def expr(self, e):
+        if isinstance(e, ast.Name):
+            return 'TSelf' if e.id == 'self' else '(TName %s)' % coq_str(e.id)
+        if isinstance(e, ast.Constant) and e.value is None:
+            return 'TNone'
+        if isinstance(e, ast.Attribute):
+            if e.attr in ('_inner', '_left', '_right', '_inners'):
+                return '(TAttr %s %s)' % (self.expr(e.value), coq_str(e.attr))
+            if e.attr == '_is_fully_reduced':
+                return '(TReduced %s)' % self.expr(e.value)
+            if e.attr == '_evaluation_failed':
+                return '(TFailed %s)' % self.expr(e.value)
+            if e.attr == '_variable_names':
+                return '(THasVars %s)' % self.expr(e.value)
+            self.fail('attribute', e)
+        if isinstance(e, ast.UnaryOp) and isinstance(e.op, ast.Not):
+            return '(TNot %s)' % self.expr(e.operand)
+        if isinstance(e, ast.Compare) and len(e.ops) == 1 and isinstance(e.ops[0], (ast.Is, ast.IsNot)) \
+                and isinstance(e.comparators[0], ast.Constant) and e.comparators[0].value is None:
+            t = '(TIsNone %s)' % self.expr(e.left)
+            return t if isinstance(e.ops[0], ast.Is) else '(TNot %s)' % t
+        if isinstance(e, ast.Call) and not e.keywords:
+            f = e.func
+            a = e.args
+            if isinstance(f, ast.Name) and f.id == 'isinstance' and len(a) == 2 and isinstance(a[1], ast.Attribute) \
+                    and a[1].attr == 'Constant':
+                return '(TIsConst %s)' % self.expr(a[0])
+            if isinstance(f, ast.Attribute) and f.attr == '_consolidate_expression_lacking_variables' and not a:
+                return '(TConsolidate %s)' % self.expr(f.value)
+            if isinstance(f, ast.Attribute) and f.attr == '_take_reduction_step' and not a:
+                return '(TStep %s)' % self.expr(f.value)
+            if isinstance(f, ast.Attribute) and f.attr == '_rebuild' and isinstance(f.value, ast.Name) and f.value.id == 'self':
+                out = []
+                for x in a:
+                    if isinstance(x, ast.Starred):
+                        out.append('("*", %s)' % self.expr(x.value))
+                    else:
+                        out.append('("", %s)' % self.expr(x))
+                return '(TRebuild %s)' % coq_list(out)
+            if isinstance(f, ast.Attribute) and isinstance(f.value, ast.Name) and f.value.id == 'util' \
+                    and f.attr == 'list_with_updated_entry_at' and len(a) == 3:
+                return '(TUpdatedAt %s %s %s)' % (self.expr(a[0]), self.expr(a[1]), self.expr(a[2]))
+            if isinstance(f, ast.Attribute) and f.attr == 'at' and len(a) == 1 and isinstance(a[0], ast.Call) \
+                    and isinstance(a[0].func, ast.Attribute) and a[0].func.attr == 'Point' and not a[0].args and not a[0].keywords:
+                return '(TAtEmptyPoint %s)' % self.expr(f.value)
+            if isinstance(f, ast.Attribute) and isinstance(f.value, ast.Name) and f.value.id == 'ex' and f.attr == 'Constant' and len(a) == 1:
+                return '(TMkConst %s)' % self.expr(a[0])
+        self.fail('expression', e)
+
+    def block(self, stmts):
+        out = []
+        for st in stmts:
+            if isinstance(st, ast.Expr) and isinstance(st.value, ast.Constant):
+                continue
+            out.append(self.stmt(st))
+        return coq_list(out)
+
+    def is_reducer_loop(self, st):
+        """for reducer in self._reducers: reduced = reducer(); if reduced is not None: return reduced"""
+        if not (isinstance(st, ast.For) and not st.orelse and isinstance(st.target, ast.Name)
+                and isinstance(st.iter, ast.Attribute) and st.iter.attr == '_reducers'
+                and isinstance(st.iter.value, ast.Name) and st.iter.value.id == 'self' and len(st.body) == 2):
+            return False
+        a, b = st.body
+        if not (isinstance(a, ast.Assign) and len(a.targets) == 1 and isinstance(a.targets[0], ast.Name)
+                and isinstance(a.value, ast.Call) and isinstance(a.value.func, ast.Name)
+                and a.value.func.id == st.target.id and not a.value.args and not a.value.keywords):
+            return False
+        nm = a.targets[0].id
+        return (isinstance(b, ast.If) and not b.orelse and len(b.body) == 1 and isinstance(b.body[0], ast.Return)
+                and isinstance(b.body[0].value, ast.Name) and b.body[0].value.id == nm
+                and isinstance(b.test, ast.Compare) and len(b.test.ops) == 1 and isinstance(b.test.ops[0], ast.IsNot)
+                and isinstance(b.test.left, ast.Name) and b.test.left.id == nm
+                and isinstance(b.test.comparators[0], ast.Constant) and b.test.comparators[0].value is None)
+
+    def stmt(self, st):
+        if isinstance(st, ast.Return) and st.value is not None:
+            return '(TSReturn %s)' % self.expr(st.value)
+        if isinstance(st, ast.If):
+            return '(TSIf %s %s %s)' % (self.expr(st.test), self.block(st.body), self.block(st.orelse))
+        if isinstance(st, ast.Assign) and len(st.targets) == 1:
+            t = st.targets[0]
+            if isinstance(t, ast.Name):
+                return '(TSAssign %s %s)' % (coq_str(t.id), self.expr(st.value))
+            if isinstance(t, ast.Attribute) and isinstance(st.value, ast.Constant) and st.value.value is True:
+                if t.attr == '_is_fully_reduced':
+                    return '(TSSetReduced %s)' % self.expr(t.value)
+                if t.attr == '_evaluation_failed':
+                    return '(TSSetFailed %s)' % self.expr(t.value)
+        if self.is_reducer_loop(st):
+            return 'TSReducers'
+        if isinstance(st, ast.For) and not st.orelse:
+            if isinstance(st.target, ast.Tuple) and len(st.target.elts) == 2 and all(isinstance(x, ast.Name) for x in st.target.elts) \
+                    and isinstance(st.iter, ast.Call) and isinstance(st.iter.func, ast.Name) and st.iter.func.id == 'enumerate' \
+                    and len(st.iter.args) == 1 and not st.iter.keywords:
+                return '(TSForEnum %s %s %s %s)' % (coq_str(st.target.elts[0].id), coq_str(st.target.elts[1].id),
+                                                   self.expr(st.iter.args[0]), self.block(st.body))
+            if isinstance(st.target, ast.Name) and st.target.id == '_' and isinstance(st.iter, ast.Call) \
+                    and isinstance(st.iter.func, ast.Name) and st.iter.func.id == 'range' and len(st.iter.args) == 2 \
+                    and isinstance(st.iter.args[0], ast.Constant) and st.iter.args[0].value == 0 \
+                    and isinstance(st.iter.args[1], ast.Name) and st.iter.args[1].id == 'REDUCTION_STEPS_BOUND':
+                return '(TSForBudget %s)' % self.block(st.body)
+        if isinstance(st, ast.Try) and not st.orelse and not st.finalbody and len(st.handlers) == 1:
+            h = st.handlers[0]
+            if isinstance(h.type, ast.Attribute) and h.type.attr == 'DomainError' and h.name is None:
+                return '(TSTryDomain %s %s)' % (self.block(st.body), self.block(h.body))
+        if isinstance(st, ast.Expr) and isinstance(st.value, ast.Call) and isinstance(st.value.func, ast.Attribute) \
+                and isinstance(st.value.func.value, ast.Name) and st.value.func.value.id == 'logging' and st.value.func.attr == 'warning':
+            return 'TSWarn'
+        self.fail('statement', st)
+
+    def function(self, fd):
+        a = fd.args
+        if a.kwonlyargs or a.kwarg or a.posonlyargs or a.vararg or a.defaults or [p.arg for p in a.args] != ['self']:
+            self.fail('parameters', fd)
+        return '{| t_params := []; t_body := %s |}' % self.block(fd.body)
+
+
+def generate_step():
+    lines = ['(* GENERATED by harness/tie_extract.py: the current source of _take_reduction_step,',
+             '   _consolidate_expression_lacking_variables and _fully_reduce, translated into StepAst.tfun -- do not edit *)',
+             'From Coq Require Import ZArith List String.', 'From SM Require Import StepAst.',
+             'Import ListNotations.', 'Open Scope string_scope.', '']
+    owners = []
+    files = [('expression', fn) for fn in EXPR_FILES] + [('base_expression', fn) for fn in BASE_FILES] + [('base_expression', 'expression')]
+    for sub, fn in files:
+        t = parse(os.path.join(SRC, '_private', sub, fn + '.py'))
+        for node in t.body:
+            if isinstance(node, ast.ClassDef):
+                for m in methods_of(node):
+                    if m.name in ('_take_reduction_step', '_consolidate_expression_lacking_variables', '_fully_reduce'):
+                        body = [s for s in m.body if not (isinstance(s, ast.Expr) and isinstance(s.value, ast.Constant))]
+                        if len(body) == 1 and isinstance(body[0], ast.Raise):
+                            continue
+                        tr = StepTranslator('%s.%s' % (node.name, m.name))
+                        short = {'_take_reduction_step': 'step', '_consolidate_expression_lacking_variables': 'consolidate',
+                                 '_fully_reduce': 'fully_reduce'}[m.name]
+                        lines.append('Definition gen_step_%s_%s : tfun := %s.' % (node.name, short, tr.function(m)))
+                        owners.append((node.name, m.name))
+    lines.append('')
+    lines.append('Definition gen_step_owners : list (string * string) := ' +
+                 coq_list(['(%s, %s)' % (coq_str(c), coq_str(m)) for c, m in sorted(owners)]) + '.')
+    return '\n'.join(lines) + '\n'
+
+
 def write_if_changed(path, text):
     old = open(path).read() if os.path.exists(path) else None
     if old != text:
@@ -1494,6 +1649,14 @@ def main():
         print('TIE-TRANSLATE-FAILED: %s' % ex)
     if write_if_changed(os.path.join(coqdir, 'GeneratedRoute.v'), rtext):
         print('GeneratedRoute.v rewritten')
+    try:
+        ttext = generate_step()
+    except (TieError, SyntaxError, OSError) as ex:
+        ttext = ('(* GENERATED: the translator FAILED CLOSED: %s *)\n'
+                 'Definition step_translator_failed : False := I.\n') % str(ex).replace('*)', '* )')
+        print('TIE-TRANSLATE-FAILED: %s' % ex)
+    if write_if_changed(os.path.join(coqdir, 'GeneratedStep.v'), ttext):
+        print('GeneratedStep.v rewritten')
     out = sys.argv[1] if len(sys.argv) > 1 else os.path.join(os.path.dirname(os.path.dirname(os.path.abspath(__file__))), 'coq', 'Generated.v')
     try:
         text = generate()
